@@ -240,7 +240,41 @@ def sample(ctx, budget=1.0, hint=None, broken=None):
         mk = lambda k: (P.Line(complex(r.uniform(-1, 1), r.uniform(-1, 1)) * scale, complex(r.uniform(-1, 1), r.uniform(-1, 1)) * scale)
                         if k == 'line' else wiggly(k, scale))
         a, b = mk(ka), mk(kb)
-        if r.random() < 0.3:
+        lattice = r.random() < 0.3
+        if lattice:
+            # control points on a coarse lattice and (half of the time) axis-parallel lines: coefficients of the polynomial
+            # handed to the root finder vanish EXACTLY (e.g. a quadratic leaving its start parallel to the line)
+            lz = lambda: complex(r.randint(-4, 4), r.randint(-4, 4)) * scale / 2
+
+            def lmk(k):
+                if k == 'line':
+                    p0 = lz()
+                    if r.random() < 0.5:
+                        d = r.choice([1, -1]) * r.randint(2, 8) * scale / 2
+                        p0 = p0 + (complex(0.25, 0.25) * scale if r.random() < 0.7 else 0)
+                        return P.Line(p0, p0 + (d if r.random() < 0.5 else 1j * d))
+                    return P.Line(p0, lz())
+                return P.QuadraticBezier(lz(), lz(), lz()) if k == 'quad' else P.CubicBezier(lz(), lz(), lz(), lz())
+            a, b = lmk(ka), lmk(kb)
+            if r.random() < 0.5 and (ka == 'line') != (kb == 'line'):
+                # a Bezier whose start tangent, end tangent or leading difference is exactly parallel to the line: one
+                # coefficient of the polynomial handed to the root finder is exactly zero
+                ln, bz_ = (a, b) if ka == 'line' else (b, a)
+                d = ln.end - ln.start
+                bp = list(bz_.bpoints())
+                lam = r.choice([0.5, -0.5, 1.0, 0.25, -1.5])
+                which = r.choice(['start-tangent', 'end-tangent', 'leading'])
+                if which == 'start-tangent':
+                    bp[1] = bp[0] + lam * d
+                elif which == 'end-tangent':
+                    bp[-2] = bp[-1] + lam * d
+                elif len(bp) == 3:
+                    bp[1] = (bp[0] + bp[2] - lam * d) / 2          # p0 - 2 p1 + p2 = lam d
+                else:
+                    bp[3] = bp[0] - 3 * bp[1] + 3 * bp[2] + lam * d   # -p0 + 3p1 - 3p2 + p3 = lam d
+                bz_ = P.QuadraticBezier(*bp) if len(bp) == 3 else P.CubicBezier(*bp)
+                a, b = (ln, bz_) if ka == 'line' else (bz_, ln)
+        if r.random() < 0.3 and not lattice:
             # a long chord through the wiggle
             ln = P.Line(complex(-1.2 * scale, r.uniform(-0.15, 0.15) * scale), complex(1.2 * scale, r.uniform(-0.15, 0.15) * scale))
             if ka == 'line':
@@ -263,7 +297,7 @@ def sample(ctx, budget=1.0, hint=None, broken=None):
         except Exception as e:
             fail('%s/raises %s' % (kk, type(e).__name__), 'intersect raised on a pair in general position', info, repr(e)[:200], '%d pairs' % len(ex), rep)
             continue
-        nontriv.add(('count', ka, kb, len(ex), scale))
+        nontriv.add(('count', ka, kb, len(ex), scale, lattice))
         if len(got) != len(ex):
             fail('%s/count' % kk, 'number of reported pairs differs from the exact number of crossings (Sturm count over the rationals)', info,
                  repr(got), '%d crossings, at %s' % (len(ex), [(float(x[0]), float(y[0])) for x, y in ex]), rep)
